@@ -20,7 +20,7 @@ def spaces(tier):
     q = tier == "quick"
 
     def gen_gen():
-        for alpha, L in (("A", 6), ("AC", 6), ("ACD", 5), ("ACDE", 4)) if q else (("A", 8), ("AC", 8), ("ACD", 6), ("ACDE", 5)):
+        for alpha, L in (("A", 6), ("AC", 6), ("ACD", 5), ("ACDE", 4)) if q else (("A", 10), ("AC", 10), ("ACD", 7), ("ACDE", 6)):
             for x in E.universe(alpha, L):
                 yield ("gen", x, alpha)
         for x in E.universe("AX", 4):       # letters outside the alphabet
@@ -46,7 +46,7 @@ def spaces(tier):
         yield ("hub", "CASSLGQAYEQYFG")
 
     return [
-        Space("generators-all-strings", gen_gen, "all strings: lengths <= 6,6,5,4 (quick) / 8,8,6,5 (thorough) over alphabets of 1,2,3,4 letters; strings with a letter outside the alphabet; U(AC,3|4) over the 20-letter default", shards=32),
+        Space("generators-all-strings", gen_gen, "all strings: lengths <= 6,6,5,4 (quick) / 10,10,7,6 (thorough) over alphabets of 1,2,3,4 letters; strings with a letter outside the alphabet; U(AC,3|4) over the 20-letter default", shards=32),
         Space("set-utilities-all-subsets", gen_sets, "every non-empty subset of U(AC,2) (127) and of a 9-string mixed-length family (511) x both neighbourhoods"),
         Space("nndist_hamming", gen_nn, "seq in all 81 four-letter strings over ACD x every non-empty subset of a 6-string reference x maxdist 1..4 (5 must raise NotImplementedError)"),
     ]
